@@ -1016,6 +1016,9 @@ func (w *walker) lockCall(c *ast.CallExpr, sel *ast.SelectorExpr, async bool) bo
 			}
 			delete(w.emit(event{kind: evAcq, pos: c.Pos(), name: l}, false).may, l)
 			w.atom(c.Pos(), "wait", l)
+		} else {
+			// who is woken matters to the models (a close must release EVERY parked reader): recorded as a call
+			w.atom(c.Pos(), "call", l+"."+name)
 		}
 		return true
 	}
